@@ -793,6 +793,16 @@ func genC03(r *rand.Rand, n int, exhaustive bool, out func(J), next func() int) 
 		pre := []string{q.text(), "DROP GRAPH ?g0;", "CREATE GRAPH ?g0;", insertStmt("?g0", ts[h:])}
 		out(tag(run(Spec{Graphs: [][]string{ts}, Query: q.text(), Pre: pre}, false), "sequence-drop", next()))
 	}
+	// (3h3) statement bounds equal to anchors of the data, both clause orders
+	for i := 0; i < n/16; i++ {
+		ts := boundsEqData()
+		k := 1 + i%2
+		q := boundsEqQuery(r, k)
+		if i%2 == 1 {
+			q.clauses[0], q.clauses[1] = q.clauses[1], q.clauses[0]
+		}
+		out(tag(run(Spec{Graphs: roundRobin(ts, k, i%k), Query: q.text()}, false), "bounds-eq", next()))
+	}
 	// (3i) the last clause binds nothing new and matches more than once (the triple in two FROM graphs, an interval matching
 	// two anchors), projected through aliases that carry the names of pattern bindings
 	for i := 0; i < n/16; i++ {
@@ -1125,6 +1135,39 @@ func filterPairs(r *rand.Rand, n int, out func(J), next func() int) {
 	}
 }
 
+// statement bounds EQUAL to anchors of the data, on clauses joined through an anchor binding: one clause is fully specified
+// once the other has bound ?t, so the path (existence test vs driver lookup) depends on the clause order
+var eqAnchors = []string{"2016-01-01T00:00:00Z", "2016-03-01T00:00:00Z", "2016-06-01T00:00:00-08:00", "2016-12-01T00:00:00Z"}
+
+func boundsEqData() []string {
+	var ts []string
+	for i, a := range eqAnchors {
+		ts = append(ts, fmt.Sprintf("/u<s%d>\t\"p\"@[%s]\t/u<o%d>", i, a, i), fmt.Sprintf("/u<a>\t\"q\"@[%s]\t/u<b>", a))
+	}
+	ts = append(ts, "/u<a>\t\"q\"@[]\t/u<b>", "/u<s9>\t\"p\"@[2016-03-01T00:00:00Z]\t/u<a>")
+	return ts
+}
+
+func boundsEqQuery(r *rand.Rand, k int) query {
+	cl := [][]string{
+		{`?s "p"@[?t] ?o`, `/u<a> "q"@[?t] /u<b>`},
+		{`?s "p"@[?t] ?o`, `/u<a> "q"@[?t] /u<b> AS ?ob`},
+		{`?s "p"@[?t] ?o`, `?x "q"@[?t] ?y`},
+		{`?s ?p1 AT ?t ?o`, `/u<a> "q"@[?t] ?y`},
+	}[r.Intn(4)]
+	q := query{from: k}
+	for _, c := range cl {
+		q.clauses = append(q.clauses, c)
+		q.optional = append(q.optional, false)
+	}
+	a, b := r.Intn(len(eqAnchors)), r.Intn(len(eqAnchors))
+	if a > b {
+		a, b = b, a
+	}
+	q.tail = []string{"AFTER " + eqAnchors[a], "BEFORE " + eqAnchors[b], "BETWEEN " + eqAnchors[a] + ", " + eqAnchors[b]}[r.Intn(3)]
+	return q
+}
+
 // insertStmt writes triples (tab separated texts) as an INSERT statement into graph g
 func insertStmt(g string, ts []string) string {
 	var parts []string
@@ -1178,6 +1221,7 @@ func genC14(r *rand.Rand, n int, out func(J), next func() int) {
 		var q query
 		ncl := 1 + r.Intn(4)
 		ordered := gi%4 == 3
+		keepTail := false
 		switch {
 		case ordered:
 			ts = orderData(r)
@@ -1197,6 +1241,12 @@ func genC14(r *rand.Rand, n int, out func(J), next func() int) {
 			}
 			q = query{clauses: []string{`?a "p"@[] ?b`, `?b "p"@[] ?c`}, optional: []bool{false, false}}
 			ncl = 2
+		case gi%8 == 0 && gi%16 == 8 || gi%16 == 4:
+			ts = boundsEqData()
+			r.Shuffle(len(ts), func(a, b int) { ts[a], ts[b] = ts[b], ts[a] })
+			q = boundsEqQuery(r, 1)
+			ncl = len(q.clauses)
+			keepTail = true
 		case gi%8 == 4:
 			// OPTIONAL clauses that share a binding with the rows built so far and match for some rows only
 			ts = cycleData(r)
@@ -1236,7 +1286,9 @@ func genC14(r *rand.Rand, n int, out func(J), next func() int) {
 			q = withProjection(r, q)
 		}
 		q.from = 1
-		q.tail = ""
+		if !keepTail {
+			q.tail = ""
+		}
 		hasOpt := false
 		for _, o := range q.optional {
 			hasOpt = hasOpt || o
